@@ -305,6 +305,8 @@ def gen_world(rng, repo_kind, outer, branch_kind, tree_kind, gi=None):
         heads = set(need.get(key, ()))
         for _ in range(rng.choice([0, 0, 1, 2])):
             heads.add(rng.randrange(n))
+        if key == "loc" and rng.random() < 0.6:
+            heads.add(n - 1)        # the doomed repository usually holds more than the tip's ancestry
         revs = _closure(g, heads)
         if key == "loc":
             w["repo"]["revs"] = revs
@@ -386,6 +388,24 @@ def corpus():
     out.append({"kind": "reconf", "target": "tree", "nb": None, "force": False, "world": _w(
         branch={"ref": 2}, tree={"merges": [3], "changes": []},
         others=(None, None, {"tip": 2, "tags": {"0": 0}, "own": g0}))})
+    # W7: to_use_shared must fetch EVERYTHING out of the doomed repository (r3..r5 are not ancestors of the tip)
+    out.append({"kind": "reconf", "target": "use-shared", "nb": None, "force": False, "world": _w(
+        repo={"shared": False, "trees": True, "revs": g0}, outer={"trees": True, "revs": [0]},
+        branch={"local": {"tip": 2, "tags": {"0": 5}, "bloc": None, "push": None, "parent": None}},
+        tree={"merges": [], "changes": [2]})})
+    # W8: the same for to_lightweight_checkout (fetch into the reference's repository)
+    out.append({"kind": "reconf", "target": "lightweight", "nb": 2, "force": False, "world": _w(
+        repo={"shared": False, "trees": True, "revs": g0},
+        branch={"local": {"tip": 2, "tags": {}, "bloc": None, "push": None, "parent": None}},
+        tree={"merges": [], "changes": []},
+        others=(None, None, {"tip": 2, "tags": {}, "own": [0, 1, 2]}))})
+    # W9/W10: _select_bind_location prefers the push location to the parent, the old bound location to both
+    for bloc, want in ((None, "push"), ([False, 0], "old")):
+        out.append({"kind": "reconf", "target": "checkout", "nb": None, "force": False, "world": _w(
+            repo={"shared": False, "trees": True, "revs": g0},
+            branch={"local": {"tip": 4, "tags": {}, "bloc": bloc, "push": 1, "parent": 2}},
+            tree={"merges": [], "changes": []},
+            others=({"tip": 4, "tags": {}, "own": g0}, {"tip": 4, "tags": {}, "own": g0}, {"tip": 4, "tags": {}, "own": g0}))})
     # upgrade witnesses (findings): colo target on an old directory; lowering the tree format
     out.append({"kind": "upgrade", "src": "1.14-rich-root", "dst": "development-colo", "layout": "tree", "clean_up": False,
                 "nrev": 2, "tags": {}, "changes": [], "merge": False, "locs": [None, None, None]})
@@ -499,6 +519,34 @@ def _upgrade_cases(rng, tier):
                "locs": [rng.choice([None, 1]), rng.choice([None, 2]), rng.choice([None, 3])]}
 
 
+def _pref_cases(rng, tier):
+    """Reconfigure._select_bind_location: every way of filling new/bound/old-bound/push/parent with
+    DIFFERENT existing branches (and a missing one), for the two factories that use it."""
+    import itertools
+    gi = 0
+    g = DAGS[gi]
+    full = list(range(len(g)))
+    combos = []
+    for bloc in (None, [True, 0], [False, 0]):
+        for push in (None, 1, 2, 3):
+            for parent in (None, 1, 2, 3):
+                if push is not None and push == parent and push != 3:
+                    continue
+                for nb in (None, 2):
+                    combos.append((bloc, push, parent, nb))
+    rng.shuffle(combos)
+    if tier == "quick":
+        combos = combos[:16]
+    for k, (bloc, push, parent, nb) in enumerate(combos):
+        tip = rng.choice([2, 4, 5])
+        others = [{"tip": tip if rng.random() < 0.85 else 1, "tags": {}, "own": full} for _ in range(3)]
+        yield {"kind": "reconf", "target": ("checkout", "lightweight")[k % 2], "nb": nb, "force": False,
+               "world": _w(gi=gi, repo={"shared": rng.random() < 0.3, "trees": True, "revs": full},
+                           outer={"trees": False, "revs": []} if rng.random() < 0.3 else None,
+                           branch={"local": {"tip": tip, "tags": {}, "bloc": bloc, "push": push, "parent": parent}},
+                           tree={"merges": [], "changes": []} if rng.random() < 0.5 else None, others=others)}
+
+
 def cases(rng, tier):
     shapes = list(SHAPES)
     if tier == "quick":
@@ -524,6 +572,8 @@ def cases(rng, tier):
                          nb=rng.choice([None, None, None, 0, 1, 2, 3]), force=rng.random() < 0.3)
         if c is not None:
             yield c
+    for c in _pref_cases(rng, tier):
+        yield c
     for c in _upgrade_cases(rng, tier):
         yield c
 
